@@ -145,3 +145,21 @@ prop("C02",
                 "attributes are emitCurrentToken's contract.",
      not_decided=["comment / doctype / script-data escape / CDATA / markup-declaration states", "HTMLTokenizer.__iter__"],
      explanation="state-by-state contracts against the standard, modular over the stream contract")
+
+
+prop("C11",
+     level="proof",
+     level_text="Proofs of the components every tree walker is built from: TreeWalker.text splits any text into at most "
+                "whitespace / other / whitespace pieces that concatenate to the text, with whitespace pieces made of the five "
+                "ASCII space characters only and no empty piece; NonRecursiveTreeWalker.__iter__, for an arbitrary node (any "
+                "answer of getNodeDetails), emits on entering exactly the token(s) of that node kind (EmptyTag for void HTML "
+                "elements and no descent into them, StartTag otherwise, Doctype/Comment/Entity/text pieces/error) and on "
+                "leaving an EndTag exactly for the elements that got a StartTag -- the two guards are proved complementary.",
+     level_note="Trusted: pyvc, z3. Step contracts (arbitrary node, arbitrary walk state); that the traversal visits every "
+                "node once in document order (balanced nesting) additionally needs the tree axioms of getFirstChild/"
+                "getNextSibling/getParentNode and is NOT mechanised in this revision, nor are the etree/dom back-end "
+                "getNodeDetails (attribute/namespace decoding; known finding: '{..}' in attribute names on etree), the Lint "
+                "filter, or the cross-walker equality.",
+     not_decided=["document-order traversal / balance over whole trees", "etree and dom getNodeDetails", "Lint acceptance",
+                  "rebuilding the tree from the stream", "equality of the etree and dom streams"],
+     explanation="walker components under contract")
